@@ -23,7 +23,7 @@ var asiOperands = []string{
 	"this", "true", "false", "null",
 }
 
-var asiNL = []string{"\n", "\r\n", "\r", " \n", "\n  ", " // c\n", "\u2028", "\u2029", "/**/\n", "\t\r\n\t", "\n\n"}
+var asiNL = []string{"\n", "\r\n", "\r", " \n", "\n  ", " // c\n", "\u2028", "\u2029", "/**/\n", "\t\r\n\t", "\n\n", "/*\n*/", " /* a\r\n b */ "}
 
 type asiProg struct {
 	toks  []string // token texts of the whole program
